@@ -39,6 +39,48 @@ CHECKS = {
         "Small-scope: N<=64 rows; frequencies exactly on a non-dyadic threshold and rate ties are DONT_CARE.",
         "DESIGN.md §3 C02",
     ),
+    "C03": (
+        "E1-space",
+        "bounded-exhaustive search over fitted objects + complete boundary-neighbour probe sets",
+        "For every fitted object of the column space (Discretizer family) and the carving space (Binary/ContinuousCarver), the static "
+        "contiguity of values_orders is checked (quantitative runs of boundaries, ordinal runs of the user ranking, categorical order by "
+        "exact training target rate) and transform is evaluated on a probe set that contains, for every fitted boundary, the boundary, "
+        "both neighbouring doubles, midpoints, training values and +-1e300: intervals, right-closedness, monotonicity (float), "
+        "unbounded last interval, number of values.",
+        "The probe set is complete for a transform that depends on x only through comparisons with fitted boundaries; small-scope columns (<= 6 distinct values).",
+        "DESIGN.md §3 C03",
+    ),
+    "C04": (
+        "E1-space",
+        "bounded-exhaustive search over fitted objects; transform compared with a reference mapping read from values_orders only",
+        "For every fitted object of the column space and the carving space (all four output_dtype x dropna combinations, numeric-looking "
+        "categories, the x+202300 scale whose boundaries agree to 4 significant digits, and each carver rebuilt from JSON), RefTransform "
+        "(reads only list+content of values_orders) must induce exactly the row partition of transform(X_train); labels injective on "
+        "groups; float labels are ranks; missing values per dropna.",
+        "Label text is not prescribed; small-scope columns.",
+        "DESIGN.md §3 C04",
+    ),
+    "C08": (
+        "E1-space",
+        "bounded-exhaustive search over degenerate and tied columns x all classes; outcome and well-formedness invariant",
+        "Every column over the cell alphabet SIGMA_D (sizes 1..5, pure cells, never-observed ordinal values, missing cells, all-missing, "
+        "constant, all-distinct, two rows) is fitted by every applicable discretizer class and the three carvers over a min_freq grid, "
+        "with and without a companion feature that is dropped; the outcome must be completion or AssertionError, and a completed object "
+        "must satisfy the full coherence invariant (attributes refer to kept features, values_orders well-formed and covering, summary, "
+        "history, transform leaves dropped features untouched).",
+        "History rows of a dropped feature are accepted when flagged removed; columns <= 4 distinct values (6 for ContinuousDiscretizer).",
+        "DESIGN.md §3 C08",
+    ),
+    "C09": (
+        "E1-space",
+        "bounded-exhaustive search over tied / spiked columns; exact-rational oracle on bucket frequencies",
+        "Same column space as C08 for the Discretizer family: bucket frequencies recomputed exactly from the cells and compared with "
+        "min_freq (ordinal), min_freq/2 (quantitative), default-group membership iff rarer than min_freq (categorical), separate "
+        "missing modality, and the ContinuousDiscretizer clauses (strictly increasing observed boundaries + inf, frequent values are "
+        "boundaries, quantile buckets <= 2.5*min_freq).",
+        "A frequency exactly on a non-dyadic threshold is DONT_CARE; small-scope columns.",
+        "DESIGN.md §3 C09",
+    ),
 }
 
 NOT_BUILT = "check not built yet (work in progress, see DESIGN.md §7 for the order)"
